@@ -20,6 +20,7 @@ import (
 	"path/filepath"
 	"regexp"
 	"sort"
+	"strconv"
 	"strings"
 	"time"
 
@@ -555,7 +556,8 @@ func (r *c09Run) sweepBuiltins() {
 }
 
 // sweepTuples: 3+-tuples. A fixed table (every function that documents room for three arguments
-// x all triples over the reduced pool; thorough: third argument over the whole pool) and seeded
+// x all triples over the reduced pool; thorough: one argument, in any position, over the whole
+// pool) and seeded
 // 3..5-tuples over the whole pool. Table cells have the signature of the pair sweep (function +
 // argument type tuple + fault kind): the table is seed independent, its failing cells are the
 // listed ones. A seeded tuple (any types, up to five arguments) may only fault in a function and
@@ -574,20 +576,51 @@ func (r *c09Run) sweepTuples() {
 		}
 	}
 	perFn := c.Scale(40000, 500000) / len(r.fns)
+	if v, err := strconv.Atoi(os.Getenv("C09_TUPLES")); err == nil && v > 0 {
+		perFn = v / len(r.fns) // development aid: a larger seeded part to find cells worth promoting
+	}
 	for _, f := range r.fns {
 		var u []c09Case
 		var cl []c09Cell
 		var tb []bool
 		if f.Max < 0 || f.Max >= 3 {
+			seen := map[[3]int]bool{}
+			add3 := func(i, j, k int) {
+				if seen[[3]int{i, j, k}] {
+					return
+				}
+				seen[[3]int{i, j, k}] = true
+				u = append(u, c09Case{"E", f.Call(i, j, k)})
+				cl = append(cl, c09Cell{f, []int{i, j, k}})
+				tb = append(tb, true)
+				nTable++
+			}
 			for _, i := range c09Reduced {
 				for _, j := range c09Reduced {
 					for _, k := range third {
-						u = append(u, c09Case{"E", f.Call(i, j, k)})
-						cl = append(cl, c09Cell{f, []int{i, j, k}})
-						tb = append(tb, true)
-						nTable++
+						add3(i, j, k)
 					}
 				}
+			}
+			if c.Thorough() {
+				// … and the first and the second argument over the whole pool
+				for _, i := range c09Reduced {
+					for _, j := range c09Reduced {
+						for _, k := range third {
+							add3(i, k, j)
+							add3(k, i, j)
+						}
+					}
+				}
+			}
+		}
+		for _, pc := range c09Promoted {
+			if pc[0] == f.Key() {
+				idx := c09PoolIndex(pc[1:]...)
+				u = append(u, c09Case{"E", f.Call(idx...)})
+				cl = append(cl, c09Cell{f, idx})
+				tb = append(tb, true)
+				nTable++
 			}
 		}
 		for n := 0; n < perFn; n++ {
@@ -648,6 +681,7 @@ func (r *c09Run) sweepTuples() {
 	c.Ev.Coverage["tuple_table_cases"] = nTable
 	c.Ev.Coverage["tuple_seeded_cases"] = nSeeded
 	var dump []string
+	hitByTable := map[string]string{}
 	for u := range obs {
 		for k, ob := range obs[u] {
 			cl := cells[u][k]
@@ -664,8 +698,18 @@ func (r *c09Run) sweepTuples() {
 			if own && ob.How != "isolated" {
 				sig += " how=" + ob.How
 			}
+			fk := "fn=" + cl.fn.Key() + " kind=" + ob.Kind
+			if table[u][k] {
+				if _, has := hitByTable[fk]; !has && ob.How == "isolated" {
+					hitByTable[fk] = sig
+				}
+			} else if s2, has := hitByTable[fk]; has {
+				// a seeded tuple: counted with a table cell of the same function and kind that failed
+				// in this very run
+				sig, own = s2, false
+			}
 			dump = append(dump, fmt.Sprintf("%s\t%v\t%s\t%s", sig, table[u][k], units[u][k].Text, ob.Res.Summary()))
-			r.report(sig, true, units[u][k].Text, "E", ob, "args="+c09Types(cl.idx...))
+			r.report(sig, table[u][k] || !own, units[u][k].Text, "E", ob, "args="+c09Types(cl.idx...))
 		}
 	}
 	sort.Strings(dump)
@@ -690,7 +734,9 @@ func c09IsArity(r c09Result) bool { return r.Arity }
 // report records a fault: listed signatures of sweep cells are known findings, everything else
 // is a violation. The first case seen per signature is kept for the findings candidate file.
 func (r *c09Run) report(sig string, sweep bool, text, kind string, ob c09Obs, note string) {
-	if _, seen := r.firstCase[sig]; !seen {
+	if !sweep {
+		// never listable: seeded cases are reported, not recorded in the candidate file
+	} else if _, seen := r.firstCase[sig]; !seen {
 		if r.firstCase == nil {
 			r.firstCase = map[string][2]string{}
 		}
